@@ -67,7 +67,10 @@ pub open spec fn newer(a: NodeIdentifier, b: NodeIdentifier) -> bool { newer_v(a
 //@ extract src/database/node.rs :: impl Node / fn filter_existing as Node::lww_decision
 //@ lift "if let Some(new) = node_ids.get(&existing) {" :: fn lww_decision(new: &NodeIdentifier, existing: NodeIdentifier, node: Node, node_ids: &mut IdSet, result: &mut Vec<NodeToInsert>) -> Result<()> tail "Ok(())"
 //@ result r
-//@ rewrite E19 "\(new\.signature <= existing\.signature\)" => "(vec_u8_le(&new.signature, &existing.signature))" x1
+//@ rewrite E19 "\bnew\.signature\s*<=\s*existing\.signature\b" => "vec_u8_le(&new.signature, &existing.signature)" x*
+//@ rewrite E19 "\bnew\.signature\s*<\s*existing\.signature\b" => "vec_u8_lt(&new.signature, &existing.signature)" x*
+//@ rewrite E19 "\bnew\.signature\s*>\s*existing\.signature\b" => "vec_u8_lt(&existing.signature, &new.signature)" x*
+//@ rewrite E19 "\bnew\.signature\s*>=\s*existing\.signature\b" => "vec_u8_le(&existing.signature, &new.signature)" x*
 //@ rewrite E3 "serde_json::from_str\(&json_str\)" => "serde_json::from_str(&json_str)" x1
 //@ spec
         requires old(node_ids).m().contains_key(existing.id@), *new == old(node_ids).m()[existing.id@],
